@@ -121,4 +121,12 @@ PROPS = {
              "params": {"quick": {"depth": 0, "strlen": 3, "stringsonly": 1, "templates": 1}, "thorough": {"depth": 0, "strlen": 3, "stringsonly": 1, "templates": 2}}, "wall": {"quick": "100s", "thorough": "40m"}},
         ],
     },
+    "C18": {
+        "technique": "bounded symbolic execution of EVAL's debugger section, do's step-out bookkeeping and the recursion-instead-of-loop branch: relational check stepper-off vs stepper-on over a symbolic command sequence (NoOp/Next/In/Out for the first k consultations) on the C01, C03 and C12 program families; SMT (z3) decides assertions",
+        "outside": "the interactive debugger package (keyboard/terminal I/O); unknown command values (the code panics by design); programs beyond the bounds; the exact list of forms handed to the callback is not compared with the reference evaluation order (only that every consultation carries a non-nil scope)",
+        "runs": [
+            {"pkg": "./c18", "harness": "Harness_stepper", "setup": "Setup",
+             "params": {"quick": {"depth": 1, "width": 1, "cmds": 2, "small": 1, "forms": 1}, "thorough": {"depth": 1, "width": 1, "cmds": 4, "small": 1, "forms": 2}}, "wall": {"thorough": "40m"}},
+        ],
+    },
 }
